@@ -204,7 +204,8 @@ def oracle_facts(T, root: Path, jail_abs: str, exts, yielded, diag_keys):
                 else:
                     rec(full)
 
-    rec(root_real)
+    if _inside(root_real, jail_real):
+        rec(root_real)   # (a scan root that resolves outside the jail has no in-project files below it: nothing is demanded)
     return {"escapes": escapes, "below_nested": below_nested, "missing": missing, "unreported": unreported, "nested": nested}
 
 
@@ -409,6 +410,12 @@ HAND = [
     {"ops": [["d", "proj"], ["d", "proj/source"], ["f", "proj/source/x.txt"], ["l", "proj/source/l0", "."], ["l", "proj/source/l1", "."],
              ["d", "proj/source/a"], ["l", "proj/source/a/l2", ".."], ["l", "proj/source/a/l3", "."], ["f", "proj/source/a/y.rst"]],
      "scan": "proj/source", "jail": None, "exts": [".txt", ".rst"]},
+    # the source directory of the project is itself a link to a content directory elsewhere (outside the jail), which holds two
+    # links to itself: nothing in there belongs to the project, and the scan has to come back at once
+    {"ops": [["d", "outside"], ["d", "outside/content"], ["f", "outside/content/page.txt"], ["l", "outside/content/latest", "."],
+             ["l", "outside/content/current", "."], ["d", "outside/content/sub"], ["f", "outside/content/sub/q.txt"],
+             ["d", "proj"], ["f", "proj/snooty.toml"], ["l", "proj/source", "$T/outside/content"]],
+     "scan": "proj/source", "jail": "proj", "exts": [".txt", ".rst"]},
 ]
 
 
